@@ -274,8 +274,14 @@ class MemoryTransport(asyncio.Transport):
         if not keep_open:
             self.close()
 
-    def peer_reset(self) -> None:
-        self._fatal_error(ConnectionResetError(104, "Connection reset by peer"))
+    def peer_reset(self, how: str = "reset") -> None:
+        # the ways a lost peer surfaces on a socket read: not every one is a ConnectionError
+        exc = {"reset": ConnectionResetError(104, "Connection reset by peer"),
+               "unreach": OSError(113, "No route to host"),
+               "netdown": OSError(100, "Network is down"),
+               "timedout": TimeoutError(110, "Connection timed out"),
+               "aborted": ConnectionAbortedError(103, "Software caused connection abort")}[how]
+        self._fatal_error(exc)
 
 
 class AioConn:
@@ -361,10 +367,10 @@ class AioConn:
         self.log.add("ceof", conn=self.cid)
         self.transport.feed_eof()
 
-    def reset(self) -> None:
+    def reset(self, how: str = "reset") -> None:
         self.peer_lost = True
         self.log.add("creset", conn=self.cid)
-        self.transport.peer_reset()
+        self.transport.peer_reset(how)
 
     def pause_reading(self, kernel_cap: int = 0) -> None:
         self.transport.client_accepting = False
